@@ -80,6 +80,36 @@ def main(argv=None):
             _random.seed(777)
             return fn(OPB)
         recs.append(pair("lib-%03d-%s" % (j, name), a, b, ck.rng, limit))
+    # ---- arbitrary clause lists (tautological clauses, repeated literals, empty clauses, unused variables):
+    #      the 'dimacs' sub-command of the two tools on the same file, and the two classes fed the same clauses
+    shapes = [[[1, -1, 2], [-2, 3]], [[1, 1], [2, -2, 2], [-3]], [[], [1, 2]], [[1, -1]], [[2, 2, -1], [1]],
+              [[1, 2, 3], [-1, -1, -2], [3, -3, 1, -1]], [[4]], [[-1, 1], [-1, 1], [2]]]
+    for t in range(12 if ck.quick else 120):
+        n = ck.rng.randint(1, 5)
+        shapes.append([[ck.rng.choice((-1, 1)) * ck.rng.randint(1, n) for _ in range(ck.rng.choice((0, 1, 2, 3, 3, 4)))]
+                       for _ in range(ck.rng.randint(0, 5))])
+    for j, cls in enumerate(shapes):
+        n = max([abs(l) for c in cls for l in c] + [1]) + (j % 2)
+        path = os.path.join(wd, "cl%d.cnf" % j)
+        with open(path, "w") as f:
+            f.write("p cnf %d %d\n" % (n, len(cls)) + "".join(" ".join(map(str, c + [0])) + "\n" for c in cls))
+
+        def run(tool, name, path=path):
+            return cliargs.call_cli(tool, [name, "-q", "dimacs", path])
+        recs.append(pair("dimacs-%03d" % j, lambda: run(cg, "cnfgen"), lambda: run(pg, "pbgen"), ck.rng, limit))
+        recs[-1]["argv"] = "dimacs <%r>" % (cls,)
+
+        def a(cls=cls, n=n):
+            F = cnfgen.CNF(cls)
+            F.update_variable_number(n)
+            return F
+
+        def b(cls=cls, n=n):
+            F = OPB()
+            F.add_clauses_from(cls)
+            F.update_variable_number(n)
+            return F
+        recs.append(pair("clauses-%03d" % j, a, b, ck.rng, limit))
     # ---- small scope: every family instance that C01 / C02 build in both classes ------------
     from . import c01, c02
     both = {}
